@@ -101,6 +101,18 @@ def writers_rule(ctx, R="C17.W"):
 
 def rest_rules(ctx):
     writers_rule(ctx)
+    # "the same command twice gives the same bytes": the ordered writers hand their batches to the sink sequentially,
+    # in arrival order, from ordered collects -- nothing is left to the scheduler
+    d5 = dep(ctx, "C17", "C05")
+    for path, who, n_coll in (("composition::oligo::OligoComputer::vectorise_batch", "oligo::vectorise_batch", 1),
+                              ("composition::cgr::CgrComputer::vectorise", "cgr::vectorise", 1),
+                              ("composition::oligocgr::OligoCgrComputer::vectorise", "oligocgr::vectorise", 1),
+                              ("coverage::CovComputer::compute_coverages", "compute_coverages", 2)):
+        fv = ctx.view(path)
+        if fv is not None:
+            rule_ordered_collects(d5, "C05.O", fv, n_coll)
+            rule_sink_sequential(d5, "C05.O", fv, who)
+            rule_flush_pairing(d5, "C05.F", fv, who)
     # the counter rebuilds its whole (partition, chunk) grid and the coverage table on every run
     fcc, fcm, fcn = ctx.view(c07.CHUNK), ctx.view(c07.MERGE), ctx.view(c07.COUNT)
     d = dep(ctx, "C17", "C07")
